@@ -309,7 +309,7 @@ fn run_all(cases: Vec<(String, String)>) {
     if !keep { let _ = std::fs::remove_dir_all(tmp_root()); }
 }
 
-fn main() {
+pub fn main() {
     let av: Vec<String> = std::env::args().collect();
     if av.get(1).map(|s| s.as_str()) == Some("child") {
         child(&av[2], &av[3], av.get(4).map(|s| s.as_str()).unwrap_or(""), av.get(5).and_then(|x| x.parse().ok()).unwrap_or(0));
